@@ -772,8 +772,11 @@ func (g *FnGen) instr(in ssa.Instruction, st *State, reach string, b *ssa.BasicB
 				g.hset(st, key, Term{fmt.Sprintf("(store %s %s %s)", g.hget(st, key).S, ref.S, z.S), w.heapSort[key]})
 			}
 			// ghost fields keep arbitrary values
-		} else if _, ok := types.Unalias(elem).Underlying().(*types.Array); ok {
-			g.unsupp("array alloc")
+		} else if at, ok := types.Unalias(elem).Underlying().(*types.Array); ok {
+			// backing array of a slice literal / variadic pack: a fresh slice-heap object
+			key, es := w.sliceKey(at.Elem())
+			z := w.zero(at.Elem())
+			g.hset(st, key, Term{fmt.Sprintf("(store %s %s ((as const (Array Int %s)) %s))", g.hget(st, key).S, ref.S, es, z.S), w.heapSort[key]})
 		} else {
 			key, srt := w.cellKey(elem)
 			g.ptrs[in] = &PtrDesc{kind: "cell", key: key, base: ref, sort: srt, typ: elem}
@@ -801,6 +804,16 @@ func (g *FnGen) instr(in ssa.Instruction, st *State, reach string, b *ssa.BasicB
 		x := g.val(in.X)
 		idx := g.val(in.Index)
 		sl, ok := types.Unalias(in.X.Type()).Underlying().(*types.Slice)
+		if !ok {
+			if pa, ok2 := types.Unalias(in.X.Type()).Underlying().(*types.Pointer); ok2 {
+				if at, ok3 := types.Unalias(pa.Elem()).Underlying().(*types.Array); ok3 {
+					ss := w.sliceSort(w.sortOf(at.Elem()))
+					x = Term{fmt.Sprintf("(mk_%s %s 0 %d)", ss, x.S, at.Len()), ss}
+					sl = types.NewSlice(at.Elem())
+					ok = true
+				}
+			}
+		}
 		if !ok {
 			g.unsupp("IndexAddr on %s", in.X.Type())
 			return
@@ -1097,11 +1110,11 @@ func (g *FnGen) binop(in *ssa.BinOp, st *State, reach string) {
 	case token.LOR:
 		t = Term{fmt.Sprintf("(or %s %s)", x.S, y.S), "Bool"}
 	case token.AND:
-		t = Term{fmt.Sprintf("(bvand %s %s)", x.S, y.S), "Int"}
+		t = Term{fmt.Sprintf("(ibitand %s %s)", x.S, y.S), "Int"}
 	case token.OR:
-		t = Term{fmt.Sprintf("(bvor %s %s)", x.S, y.S), "Int"}
+		t = Term{fmt.Sprintf("(ibitor %s %s)", x.S, y.S), "Int"}
 	case token.SHL:
-		t = Term{fmt.Sprintf("(shl %s %s)", x.S, y.S), "Int"}
+		t = Term{fmt.Sprintf("(ishl %s %s)", x.S, y.S), "Int"}
 	default:
 		g.unsupp("binop %s", in.Op)
 		return
@@ -1171,8 +1184,18 @@ func (g *FnGen) sliceOp(in *ssa.Slice, st *State, reach string) {
 		return
 	}
 	if _, ok := types.Unalias(in.X.Type()).Underlying().(*types.Slice); !ok {
-		g.unsupp("slice of %s", in.X.Type())
-		return
+		pa, ok2 := types.Unalias(in.X.Type()).Underlying().(*types.Pointer)
+		if !ok2 {
+			g.unsupp("slice of %s", in.X.Type())
+			return
+		}
+		at, ok3 := types.Unalias(pa.Elem()).Underlying().(*types.Array)
+		if !ok3 {
+			g.unsupp("slice of %s", in.X.Type())
+			return
+		}
+		ss := g.w.sliceSort(g.w.sortOf(at.Elem()))
+		x = Term{fmt.Sprintf("(mk_%s %s 0 %d)", ss, x.S, at.Len()), ss}
 	}
 	s := x.Sort
 	lo := Term{"0", "Int"}
